@@ -2011,4 +2011,136 @@ theorem inv_extrapolateP (s : Series) (coeffs : List Rat) (c : Rat) (ps : List P
     obtain ⟨serials, _, h2⟩ := h
     exact inv_extrapolate s coeffs c serials r hI h2
 
+/-! ### extrapolate: the recursion on `abs` -/
+
+
+/-- every output of the recursion is one step from the outputs before it (most recent first) followed by the initial lags -/
+theorem arRun_get (coeffs : List Rat) (c : Rat) : ∀ (n : Nat) (hist : List Cell) (k : Nat), k < n →
+    (arRun coeffs c n hist)[k]? = some (arStep coeffs c (((arRun coeffs c n hist).take k).reverse ++ hist)) := by
+  intro n
+  induction n with
+  | zero => intro hist k hk; omega
+  | succ n ih =>
+    intro hist k hk
+    cases k with
+    | zero => simp [arRun]
+    | succ k =>
+      simp only [arRun, List.getElem?_cons_succ, List.take_succ_cons, List.reverse_cons, List.append_assoc,
+        List.singleton_append]
+      exact ih _ k (by omega)
+
+theorem length_arRun (coeffs : List Rat) (c : Rat) : ∀ (n : Nat) (hist : List Cell), (arRun coeffs c n hist).length = n := by
+  intro n
+  induction n with
+  | zero => intro _; rfl
+  | succ n ih => intro hist; simp [arRun, ih]
+
+theorem length_slice (s : Series) (st : Int) (hs : s.start = some st) (a : Int) (p : Nat) :
+    (s.sliceFromUntil (a - (p : Int)) (a - 1)).length = p := by
+  unfold Series.sliceFromUntil
+  simp only [hs, Option.getD_some]
+  obtain ⟨_, hb⟩ := positions_spec [a - (p : Int), a - 1] st s.rows.length
+  have h1 := hb (a - (p : Int)) (by simp)
+  have h2 := hb (a - 1) (by simp)
+  rw [List.length_take, List.length_drop, length_expand]
+  generalize (getDatePositions [a - (p : Int), a - 1] st s.rows.length).addBefore = B at h1 h2 ⊢
+  generalize (getDatePositions [a - (p : Int), a - 1] st s.rows.length).addAfter = A at h1 h2 ⊢
+  omega
+
+
+/-- the observed lags before period `a`, most recent first: `abs s (a-1) v, …, abs s (a-p) v` -/
+def lagsBefore (s : Series) (a : Int) (p : Nat) (v : Nat) : List Cell :=
+  ((List.range p).map (fun (i : Nat) => s.abs (a - (p : Int) + (i : Int)) v)).reverse
+
+theorem initCol_eq (s : Series) (hW : WF s) (st : Int) (hs : s.start = some st) (a : Int) (p v : Nat) :
+    (s.sliceFromUntil (a - (p : Int)) (a - 1)).map (fun r => (r[v]?).getD none) =
+      (List.range p).map (fun (i : Nat) => s.abs (a - (p : Int) + (i : Int)) v) := by
+  apply List.ext_getElem?
+  intro i
+  have hl := length_slice s st hs a p
+  by_cases hi : i < p
+  · rw [List.getElem?_map, List.getElem?_map, List.getElem?_range hi]
+    have e := cellAt_slice s hW (a - (p : Int)) (a - 1) i v
+    rw [if_pos (by omega)] at e
+    simp only [Option.map_some]
+    rw [← e]
+    unfold cellAt
+    have : i < (s.sliceFromUntil (a - (p : Int)) (a - 1)).length := by omega
+    rw [List.getElem?_eq_getElem this]
+    simp
+  · rw [List.getElem?_eq_none (by simp; omega), List.getElem?_eq_none (by simp; omega)]
+
+/-- **extrapolate** over a span of `n` consecutive periods starting at `a`, AR coefficients `ρ_1 … ρ_p`, intercept `c`:
+(1) no cell outside the span changes — in particular the observed history before the span is untouched;
+(2) every cell of the span satisfies the recursion `x_t = ρ_1 x_{t-1} + … + ρ_p x_{t-p} + c` (missing-strict), the lags being
+    the cells already extrapolated in the result, `abs r (a+k-1) v … abs r a v`, followed by the observed cells of the input
+    before the span, `abs s (a-1) v … abs s (a-p) v`. -/
+theorem abs_extrapolate (s r : Series) (coeffs : List Rat) (c : Rat) (a : Int) (n : Nat) (hn : 1 ≤ n) (hI : Inv s)
+    (st : Int) (hs : s.start = some st) (h : s.extrapolate coeffs c (spanList a n) = .ok r) :
+    (∀ t v, ¬ (a ≤ t ∧ t < a + (n : Int)) → r.abs t v = s.abs t v) ∧
+    (∀ k v, k < n → v < s.nv →
+      r.abs (a + (k : Int)) v = arStep coeffs c
+        (((List.range k).map (fun (j : Nat) => r.abs (a + (j : Int)) v)).reverse ++ lagsBefore s a coeffs.length v)) := by
+  unfold Series.extrapolate at h
+  obtain ⟨n', rfl⟩ : ∃ n', n = n' + 1 := ⟨n - 1, by omega⟩
+  rw [spanList_succ] at h
+  simp only [hs] at h
+  split at h
+  · cases h
+  · rename_i hnv
+    rw [← spanList_succ] at h
+    obtain ⟨_, _, _, h4⟩ := setData_spec _ _ _ _ r hI h
+    have hne : spanList a (n' + 1) ≠ [] := by rw [spanList_succ]; simp
+    rcases h4 with ⟨h0, _⟩ | ⟨_, _, m, h6, h7⟩
+    · exact absurd h0 hne
+    · let p := coeffs.length
+      let colf : Nat → List Cell := fun v => arRun coeffs c (n' + 1) (lagsBefore s a p v)
+      have hlen : (spanList a (n' + 1)).length = n' + 1 := by simp [spanList]
+      have hcol : ∀ k, k < s.nv →
+          ((DataArg.array ((transpose s.nv (s.sliceFromUntil (a - (p : Int)) (a - 1))).map
+            (fun col => arRun coeffs c (spanList a (n' + 1)).length col.reverse))).variant k).values (n' + 1) = some (colf k) ∧
+          (colf k).length = n' + 1 := by
+        intro k hk
+        refine ⟨?_, length_arRun _ _ _ _⟩
+        have e : (((transpose s.nv (s.sliceFromUntil (a - (p : Int)) (a - 1))).map
+            (fun col => arRun coeffs c (spanList a (n' + 1)).length col.reverse)).map Col.column)[k]? =
+            some (Col.column (colf k)) := by
+          simp only [transpose, List.getElem?_map, List.getElem?_range hk, Option.map_some, hlen]
+          rw [initCol_eq s hI.2 st hs a p k]
+          rfl
+        simp only [DataArg.variant]
+        rw [exhaustThenLast_get _ _ _ k e]
+        simp [Col.values, colf, length_arRun]
+      obtain ⟨m', h8, h9⟩ := writeAll_span s.nv (n' + 1) a _ colf hcol s.nv 0 s.abs (by omega)
+      have hv0 : allVids s = (List.range' 0 s.nv).map (fun (i : Nat) => (i : Int)) := by
+        simp [allVids, resolveVariants, List.range_eq_range']
+      rw [hv0, h8] at h6
+      simp only [Option.some.injEq] at h6
+      subst h6
+      have hspan : ∀ k v, k < n' + 1 → v < s.nv → r.abs (a + (k : Int)) v = ((colf v)[k]?).getD none := by
+        intro k v hk hv
+        rw [h7, h9, if_pos ⟨⟨by omega, hv⟩, by omega, by omega⟩]
+        congr 2; omega
+      refine ⟨?_, ?_⟩
+      · intro t v hout
+        rw [h7, h9, if_neg (fun hh => hout hh.2)]
+      · intro k v hk hv
+        rw [hspan k v hk hv, arRun_get coeffs c (n' + 1) _ k hk]
+        simp only [Option.getD_some]
+        have e : (arRun coeffs c (n' + 1) (lagsBefore s a p v)).take k =
+            (List.range k).map (fun (j : Nat) => r.abs (a + (j : Int)) v) := by
+          apply List.ext_getElem?
+          intro j
+          by_cases hj : j < k
+          · rw [List.getElem?_take, if_pos hj, List.getElem?_map, List.getElem?_range hj]
+            simp only [Option.map_some]
+            rw [hspan j v (by omega) hv]
+            have : j < (colf v).length := by rw [length_arRun]; omega
+            show (colf v)[j]? = _
+            rw [List.getElem?_eq_getElem this]
+            simp
+          · rw [List.getElem?_take, if_neg hj, List.getElem?_eq_none (by simp; omega)]
+        rw [e]
+
+
 end IrisVerif.Series
